@@ -1132,7 +1132,13 @@ func (m *Mon) stepC12(sc *StepCtx, si stepInfo) {
 		if cb.Kind == "state" {
 			a, b := pre.Contexts[cb.CtxID], post.Contexts[cb.CtxID]
 			m.hit("C12", "state-callback", cls)
-			if !(sc.IsBlock() && a.State == types.RUNNING && (b.State == types.PAUSED || (cb.React == "kill" && cb.ReactOK))) {
+			killedByReaction := false
+			for _, o := range sc.Res.Callbacks {
+				if o.CtxID == cb.CtxID && o.React == "kill" && o.ReactOK {
+					killedByReaction = true // by its own callback or by another context's
+				}
+			}
+			if !(sc.IsBlock() && a.State == types.RUNNING && (b.State == types.PAUSED || killedByReaction)) {
 				m.fail(sc, "C12", "state-callback-only-on-funds-pause", cls, "state callback (%q) for context %.16s in %s, which did not pause it for lack of funds", cb.Cause, cb.CtxID, sc.Step.Desc)
 			}
 			continue
